@@ -119,25 +119,26 @@ def tmpl_track(r, lines):
 
 
 def tmpl_exclude_keeps(r, lines):
-    # items selected far down the list, a query that leaves few results, then an exclusion (a minor
-    # revision of the input): the selection must survive, whatever the indexes of its items
+    # items selected far down the list that the coming query hides, a query that leaves few results, then
+    # the exclusion of the current result (a minor revision of the input): the selection must survive,
+    # whatever the indexes of its items
     n = len(lines)
     steps = []
     for c in r.sample(['a', 'b', 'o', 'e', 'f', 'm'], 6):
         inside = [i for i, l in enumerate(lines) if c in l.lower()]
-        if 2 <= len(inside) < n:
-            high = [i for i in range(n) if i >= len(inside)] or list(range(n))
-            for i in r.sample(high, min(len(high), r.randint(1, 3))):
+        hidden = [i for i in range(n) if i not in inside and i >= len(inside)]
+        if len(inside) >= 2 and hidden:
+            for i in r.sample(hidden, min(len(hidden), r.randint(1, 3))):
                 steps.append([('pos', str(i + 1)), (r.choice(['select', 'toggle']), None)])
             steps.append([('change-query', c)])
             break
     else:
         steps.append([('last', None), ('toggle', None)])
         steps.append([('change-query', r.choice(['a', 'o', 'e']))])
-    steps.append([(r.choice(['first', 'last', 'down', 'up']), None), (r.choice(['exclude', 'exclude', 'exclude-multi']), None)])
+    steps.append([(r.choice(['first', 'last', 'down', 'up']), None), ('exclude', None)])
     steps.append([(r.choice(['up', 'down', 'clear-query', 'toggle']), None)])
     if r.random() < 0.5:
-        steps.append([('exclude', None)])
+        steps.append([(r.choice(['exclude', 'exclude-multi']), None)])
     steps.append([('accept', None)])
     return steps
 
@@ -202,7 +203,12 @@ def gen_session(r, tier, force=None):
             opts['tac'], opts['nosort'] = 0, 0
             if opts['multi'] < 3:
                 opts['multi'] = r.choice([3, 1000])
-        steps = steps[:r.randint(0, 4)] + tmpl(r, lines) + steps[:r.randint(0, 3)]
+        if tmpl in (tmpl_exclude_keeps, tmpl_selection):
+            # these templates pick items by their position in the unfiltered list
+            opts['noinput'] = 0
+            steps = tmpl(r, lines) + steps[:r.randint(0, 3)]
+        else:
+            steps = steps[:r.randint(0, 4)] + tmpl(r, lines) + steps[:r.randint(0, 3)]
     if opts.get('track'):
         # with --tac the tracked item is the one first seen while the input was still loading: loading
         # dynamics are outside the session model
